@@ -145,3 +145,28 @@ def jitter_chain(rng):
 
 
 FAMILIES = {"jitter_chain": jitter_chain, "early_arrival": early_arrival, "fast_chain": fast_chain, "rare_overrun": rare_overrun, "blocking_tie": blocking_tie, "advance_mixed": advance_mixed, "fast_node": fast_node, "same_generation_pair": same_generation_pair, "slow_side_node": slow_side_node, "slow_producer": slow_producer, "long_sink": long_sink}
+
+
+def overrun_freq(rng):
+    """A FREQUENCY-scheduled node whose computation delay exceeds its period in some steps (its structural scheduling shift grows) next to a
+    supervisor that keeps up: the header of every recorded step (scheduled time, scheduling shift, previous end) must be the values that step
+    was scheduled with (seeded change C13-f recorded the NEXT step's scheduling shift)."""
+    P = rng.choice([2, 4])
+    return dict(nodes=[_n("slow", 0, P, 1, [1, P + 1, 2 * P + 1]), _n("sup", 1, 2 * P, 1, [0, 1]), _n("w", 2, P, 0, [0, P + 2])],
+                conns=[_c("slow", "sup", window=2, delay=1, cdist=[0, 1]), _c("sup", "w", window=1, delay=0, cdist=[0, 1]),
+                       _c("w", "slow", name="in_w", skip=True, window=1, delay=0, cdist=[0, 1])],
+                sup="sup")
+
+
+def shadow_clash(rng):
+    """An input whose (shadow) name is the name of ANOTHER node of the graph: ctrl reads est's output under the input name "sensor" while the
+    raw sensor node is still in the graph.  Input names and output rings are different name spaces (seeded change C08-f looked the ring up by
+    the input name)."""
+    P = rng.choice([4, 8])
+    return dict(nodes=[_n("sensor", 0, 2, 1, [0, 1]), _n("est", 1, 4, 1, [1, 2]), _n("ctrl", 2, P, 1, [1])],
+                conns=[_c("sensor", "est", window=2, delay=1, cdist=[0, 1]), _c("est", "ctrl", name="sensor", window=2, delay=1, cdist=[0, 1]),
+                       _c("ctrl", "sensor", name="est", skip=True, window=1, delay=0, cdist=[0, 1])],
+                sup="ctrl")
+
+
+FAMILIES.update(overrun_freq=overrun_freq, shadow_clash=shadow_clash)
